@@ -88,6 +88,9 @@ def _world_dir():
                 f.write(text)
         sys.path.insert(0, _ROOT)
         sys.dont_write_bytecode = True
+        import atexit
+        import shutil
+        atexit.register(shutil.rmtree, _ROOT, True)
     return _ROOT
 
 
